@@ -102,7 +102,7 @@ package mongodb
 //@ func (*MongoCollections).InsertOperations
 //@   trusted MongoDB InsertMany (all-or-error as far as the reply tells)
 //@   mode math
-//@   props C06 C08
+//@   props C06 C08 C11
 //@   requires ctx != nil
 //@   checks[all-operations-in-one-insert] len(operations) > 0 && result == nil ==> G.qCount == old(G.qCount) + 1 && G.qKind == "InsertMany" && G.qColl == old(its.operations) && G.qDocs == len(operations)
 //@   checks[database-error-is-reported] G.qCount > old(G.qCount) && G.qErr != nil ==> result != nil
@@ -151,8 +151,9 @@ package mongodb
 //@ func (*RepositoryMongo).InsertRealSnapshot
 //@   trusted BSON conversion + MongoDB ReplaceOne(upsert) of the user-visible document with _orda_ver_ = sseq
 //@   mode math
-//@   props C11
+//@   props C11 C17
 //@   requires ctx != nil
+//@   checks[written-to-the-mongodb-collection-of-that-name] result == nil ==> G.dbCollName == collectionName
 //@   checks[one-upsert-of-the-users-document] result == nil ==> G.qKind == "ReplaceOne" && G.qUpsert && len(qf()) == 1 && eqAt(qf(), 0, "_id", id)
 //@   checks[version-recorded-last] result == nil ==> G.qDoc != nil && G.qDoc.(bson.M) && G.qDoc.(as bson.M)["_orda_ver_"] == box(sseq)
 //@   checks[database-error-is-reported] G.qCount > old(G.qCount) && G.qErr != nil ==> result != nil
